@@ -13,6 +13,7 @@ import (
 	"regexp"
 	"sort"
 	"strings"
+	"sync"
 
 	"github.com/scigolib/hdf5/internal/core"
 )
@@ -356,6 +357,12 @@ func (t *vfTree) Get(p string) *vfObject {
 	return nil
 }
 
+var (
+	vfVLenCacheMu    sync.Mutex
+	vfVLenCacheKey   io.ReaderAt
+	vfVLenCacheBytes []byte
+)
+
 // vfVLenView resolves the elements of a contiguous variable-length dataset without the
 // library's readers: element references (either length,address,index as the format has it or
 // address,index as this library writes it) into collections parsed by vfParseGCOL.
@@ -375,10 +382,21 @@ func vfVLenView(r io.ReaderAt, addr uint64, dims []uint64) string {
 	if err != nil {
 		return "NO-STAT"
 	}
-	file := make([]byte, fi.Size())
-	if _, err := r.ReadAt(file, 0); err != nil && err != io.EOF {
-		return "READ-ERR"
+	if fi.Size() > 8<<20 {
+		return "FILE-TOO-LARGE-FOR-THE-INDEPENDENT-VIEW"
 	}
+	// the bytes of the file are read once per open file, not once per dataset
+	vfVLenCacheMu.Lock()
+	file := vfVLenCacheBytes
+	if vfVLenCacheKey != r || int64(len(file)) != fi.Size() {
+		file = make([]byte, fi.Size())
+		if _, err := r.ReadAt(file, 0); err != nil && err != io.EOF {
+			vfVLenCacheMu.Unlock()
+			return "READ-ERR"
+		}
+		vfVLenCacheKey, vfVLenCacheBytes = r, file
+	}
+	vfVLenCacheMu.Unlock()
 	if addr+16*n > uint64(len(file)) {
 		return "ELEMENTS-OUTSIDE-FILE"
 	}
